@@ -411,4 +411,156 @@ theorem convertAttrToField_matches_source (P : Par) (a : SAttr) (fl : Env) (fuel
   run_of_fin (X P) _ _ Gen.TransSlog.convertAttrToField [attrV a] _ _ _ rfl rfl
     (convertAttrToField_exec_matches_source P a (fuel + dep a + 3) (by omega) fl)
 
+/-! ### `WithAttrs` -/
+
+/-- loop variables of `WithAttrs` left behind: the attribute and its field -/
+def waJunk : Option (Val × Val) → Env
+  | none => []
+  | some (a, f) => [("l2", a), ("l3", f)]
+
+/-- the loop of `WithAttrs`: every attribute is converted; the pending groups are opened once, right before the first
+    field that is not `zap.Skip()` -/
+theorem WithAttrs_loop_matches_source (P : Par) (gs : List Bytes) (fl : Env)
+    (hfl : Env.get "groups" fl = some (.list (gs.map Val.bytes))) (p0 : Val) :
+    ∀ (as : List SAttr) (F : Nat), deps as + 3 ≤ F → ∀ (acc : List Val × Bool) (i : Nat) (t : Option (Val × Val)),
+    ∃ t', rangeRun (execS (X P) (exec (X P) F) WithAttrs_loop0.rbody) .blank (.loc "l2") (attrsV as) i
+        ⟨[("p0", p0), ("l0", .list acc.1), ("l1", .bool acc.2)] ++ waJunk t, fl⟩ =
+      .normal ⟨[("p0", p0), ("l0", .list (as.foldl (attrStep gs) acc).1), ("l1", .bool (as.foldl (attrStep gs) acc).2)] ++
+        waJunk t', fl⟩
+  | [], F, hF, acc, i, t => ⟨t, by simp [attrsV, rangeRun]⟩
+  | a :: r, F, hF, acc, i, t => by
+    have ha : dep a + 3 ≤ F := by simp only [deps] at hF; omega
+    have hr : deps r + 3 ≤ F := by simp only [deps] at hF; omega
+    obtain ⟨F', rfl⟩ : ∃ F', F = F' + 1 := ⟨F - 1, by omega⟩
+    have hconv : ∀ σ : State, retK σ [.loc "l3"] "convertAttrToField"
+        (exec (X P) (F' + 1) convertAttrToField_body ⟨[("p0", attrV a)], fl⟩) = _ :=
+      fun σ => retK_of_fin1 σ _ _ _ _ _ (convertAttrToField_exec_matches_source P a (F' + 1) ha fl)
+    have hgrp : ∀ (σ : State) (fs : List Val), retK σ [.loc "l0"] "appendGroups"
+        (exec (X P) (F' + 1) appendGroups_body ⟨[("p0", .list fs)], fl⟩) = _ :=
+      fun σ fs => retK_of_fin1 σ _ _ _ _ _ (appendGroups_exec_matches_source P fs gs fl hfl F')
+    obtain ⟨t', hrest⟩ := WithAttrs_loop_matches_source P gs fl hfl p0 r (F' + 1) hr (attrStep gs acc a) (i + 1)
+      (some (attrV a, convV a))
+    refine ⟨t', ?_⟩
+    obtain ⟨fs, added⟩ := acc
+    have hne := convV_ne_skip a
+    cases gs with
+    | nil =>
+      have hst : attrStep [] (fs, added) a = (fs ++ [convV a], added) := by simp [attrStep]
+      rw [hst] at hrest
+      cases t <;> cases added <;>
+        simp [attrsV, rangeRun, WithAttrs_loop0, Stmt.rbody, waJunk, hconv, hfl, hne, State.assign1, Env.set, attrStep] <;>
+        simpa [waJunk, WithAttrs_loop0, Stmt.rbody, attrStep] using hrest
+    | cons g gr =>
+      have hpos : (0 : Int) < ((gr.length : Int) + 1) := by omega
+      cases hsk : isSkip (convert a) <;> cases added <;>
+        (simp only [attrStep, hsk] at hrest
+         cases t <;>
+          simp [attrsV, rangeRun, WithAttrs_loop0, Stmt.rbody, waJunk, hconv, hgrp, hfl, hne, hsk, hpos, State.assign1, Env.set,
+            attrStep, List.append_assoc] <;>
+          simpa [waJunk, WithAttrs_loop0, Stmt.rbody, attrStep, List.append_assoc] using hrest)
+
+/-- `WithAttrs(attrs)`: the clone gets every field of the receiver; its core is `core.With(fields)` for the fields of
+    `withAttrsSpec`; its pending groups are cleared exactly when they were opened -/
+theorem WithAttrs_matches_source (P : Par) (as : List SAttr) (core : Val) (name : Bytes) (ac : Bool) (asa cs : Int)
+    (gs : List Bytes) (self : Val) (ocore : Val) (oname : Bytes) (oac : Bool) (oasa ocs : Int) (ogroups : List Val)
+    (oself : Val) (ev : List Val) (fuel : Nat) :
+    run (X P) (fuel + deps as + 4) "WithAttrs" [.list (attrsV as)]
+        (hFld core name ac asa cs (gs.map Val.bytes) self ocore oname oac oasa ocs ogroups oself ev) =
+      .done [oself] (hFld core name ac asa cs (gs.map Val.bytes) self
+        (P.coreWith core (.list (withAttrsSpec gs as).1)) name ac asa cs
+        (if (withAttrsSpec gs as).2 then [] else gs.map Val.bytes) oself ev) := by
+  refine run_of_fin (X P) _ _ Gen.TransSlog.WithAttrs [.list (attrsV as)] _ _ _ rfl rfl ?_
+  show (exec (X P) (fuel + deps as + 4) WithAttrs_body ⟨[("p0", .list (attrsV as))], _⟩).fin = _
+  rw [show fuel + deps as + 4 = (fuel + deps as + 3) + 1 by omega, exec_succ]
+  obtain ⟨t', hloop⟩ := WithAttrs_loop_matches_source P gs
+    (hFld core name ac asa cs (gs.map Val.bytes) self ocore oname oac oasa ocs ogroups oself ev) rfl (.list (attrsV as))
+    as (fuel + deps as + 3) (by omega) ([], false) 0 none
+  have hL : WithAttrs_loop0 = .range .blank (.loc "l2") (.loc "p0") WithAttrs_loop0.rbody := rfl
+  have hb : WithAttrs_body = .seq WithAttrs_body.hd (.seq WithAttrs_body.tl.hd (.seq WithAttrs_loop0 WithAttrs_body.tl.tl.tl)) := rfl
+  have h0 : ∀ (rec : Stmt → State → GoMini.Out) (fl : Env),
+      execS (X P) rec WithAttrs_body.hd ⟨[("p0", .list (attrsV as))], fl⟩ =
+        .normal ⟨[("p0", .list (attrsV as)), ("l0", .list [])], fl⟩ := by
+    intro rec fl; simp [WithAttrs_body, Stmt.hd]
+  have h1 : ∀ (rec : Stmt → State → GoMini.Out) (fl : Env),
+      execS (X P) rec WithAttrs_body.tl.hd ⟨[("p0", .list (attrsV as)), ("l0", .list [])], fl⟩ =
+        .normal ⟨[("p0", .list (attrsV as)), ("l0", .list []), ("l1", .bool false)], fl⟩ := by
+    intro rec fl; simp [WithAttrs_body, Stmt.hd, Stmt.tl]
+  rw [hb]
+  simp only [execS_seq]
+  rw [h0]; simp only [Out.andThen_normal, execS_seq]
+  rw [h1]; simp only [Out.andThen_normal, execS_seq]
+  rw [hL, execS_range]
+  simp only [evalE_loc, Env.get, if_true, Res.out]
+  simp only [waJunk, List.append_nil] at hloop
+  rw [hloop]
+  simp only [Out.andThen_normal]
+  rw [show withAttrsSpec gs as = List.foldl (attrStep gs) ([], false) as from rfl]
+  generalize List.foldl (attrStep gs) ([], false) as = R
+  obtain ⟨fs, added⟩ := R
+  cases t' <;> cases added <;> simp [Stmt.tl, WithAttrs_body]
+
+/-- the fields and the flag are the model's `addAttrs` (`Slog.ins` over `converts`): Proofs/TransSlog.lean -/
+theorem WithAttrs_is_addAttrs (pending : List String) (as : List SAttr) :
+    ∃ items : List (String ⊕ SAttr),
+      (withAttrsSpec (pending.map sbytes) as).1 = items.map itemV ∧
+      (addAttrs ⟨[], pending⟩ (converts as)).ctx = items.map itemF ∧
+      (addAttrs ⟨[], pending⟩ (converts as)).pending = (if (withAttrsSpec (pending.map sbytes) as).2 then [] else pending) :=
+  withAttrsSpec_is_ins pending as
+
+/-! ### `Handle`, up to the attribute iteration -/
+
+/-- a `slog.Record` as the translated function reads it -/
+def recV (level : Int) (time : Val) (msg : Bytes) (pc : Int) (attrs : Val) : Val :=
+  .list [.int level, time, .bytes msg, .int pc, attrs]
+
+def entOf (level : Int) (time : Val) (msg name : Bytes) : Val := .list [.int (levelSpec level), time, .bytes msg, .bytes name]
+
+/-- the ONLY gate is `core.Check` on the mapped level: a nil answer returns nil and NOTHING is written -/
+theorem Handle_rejected_matches_source (P : Par) (ctx : Val) (level : Int) (time : Val) (msg : Bytes) (pc : Int) (attrs : Val)
+    (core : Val) (name : Bytes) (ac : Bool) (asa cs : Int) (groups : List Val) (self : Val) (ocore : Val) (oname : Bytes)
+    (oac : Bool) (oasa ocs : Int) (ogroups : List Val) (oself : Val) (ev : List Val)
+    (hck : P.check core (entOf level time msg name) = .list []) (fuel : Nat) :
+    run (X P) (fuel + 2) "Handle" [ctx, recV level time msg pc attrs]
+        (hFld core name ac asa cs groups self ocore oname oac oasa ocs ogroups oself ev) =
+      .done [.list []] (hFld core name ac asa cs groups self ocore oname oac oasa ocs ogroups oself ev) := by
+  refine run_of_fin (X P) _ _ Gen.TransSlog.Handle [ctx, recV level time msg pc attrs] _ _ _ rfl rfl ?_
+  show (exec (X P) (fuel + 2) Handle_body ⟨[("p0", ctx), ("p1", recV level time msg pc attrs)], _⟩).fin = _
+  have hlvl : ∀ σ : State, retK σ [.loc "l0"] "convertSlogLevel"
+      (exec (X P) (fuel + 1) convertSlogLevel_body ⟨[("p0", .int level)],
+        hFld core name ac asa cs groups self ocore oname oac oasa ocs ogroups oself ev⟩) = _ :=
+    fun σ => retK_of_fin1 σ _ _ _ _ _ (convertSlogLevel_exec_matches_source P level _ fuel)
+  rw [exec_succ]
+  unfold entOf at hck
+  simp [Handle_body, recV, hlvl, hck, State.assign1, Env.set]
+
+/-- an accepted entry: the caller is taken from the record's PC (only with `addCaller`, a PC and a frame), the stack is
+    taken from `addStackAt` up, and the entry is handed to the attribute iteration and `ce.Write` exactly once -/
+theorem Handle_accepted_matches_source (P : Par) (ctx : Val) (level : Int) (time : Val) (msg : Bytes) (pc : Int) (attrs : Val)
+    (core : Val) (name : Bytes) (ac : Bool) (asa cs : Int) (groups : List Val) (self : Val) (ocore : Val) (oname : Bytes)
+    (oac : Bool) (oasa ocs : Int) (ogroups : List Val) (oself : Val) (ev : List Val)
+    (c0 s0 r0 : Val) (hck : P.check core (entOf level time msg name) = .list [c0, s0, r0])
+    (fpc : Int) (ffile fline ffn : Val) (more : Bool)
+    (hfr : P.frame (.int pc) = (.list [.int fpc, ffile, fline, ffn], more))
+    (hcs : -9223372036854775808 ≤ 3 + cs ∧ 3 + cs < 9223372036854775808) (fuel : Nat) :
+    run (X P) (fuel + 2) "Handle" [ctx, recV level time msg pc attrs]
+        (hFld core name ac asa cs groups self ocore oname oac oasa ocs ogroups oself ev) =
+      .done [.list []] (hFld core name ac asa cs groups self ocore oname oac oasa ocs ogroups oself
+        (ev ++ [.list [TransSlog.nm "Handler.convertAndWrite",
+          .list [if ac && decide (pc ≠ 0) && decide (fpc ≠ 0) then .list [.bool true, .int fpc, ffile, fline, ffn] else c0,
+                 if level ≥ asa then .bytes (P.take (3 + cs)) else s0, r0],
+          recV level time msg pc attrs]])) := by
+  refine run_of_fin (X P) _ _ Gen.TransSlog.Handle [ctx, recV level time msg pc attrs] _ _ _ rfl rfl ?_
+  show (exec (X P) (fuel + 2) Handle_body ⟨[("p0", ctx), ("p1", recV level time msg pc attrs)], _⟩).fin = _
+  have hlvl : ∀ σ : State, retK σ [.loc "l0"] "convertSlogLevel"
+      (exec (X P) (fuel + 1) convertSlogLevel_body ⟨[("p0", .int level)],
+        hFld core name ac asa cs groups self ocore oname oac oasa ocs ogroups oself ev⟩) = _ :=
+    fun σ => retK_of_fin1 σ _ _ _ _ _ (convertSlogLevel_exec_matches_source P level _ fuel)
+  have hw : wrap .int (3 + cs) = 3 + cs := wrap_int_id _ hcs.1 hcs.2
+  have hnm : TransSlog.nm "Handler.convertAndWrite" = .bytes [72, 97, 110, 100, 108, 101, 114, 46, 99, 111, 110, 118, 101, 114, 116, 65, 110, 100, 87, 114, 105, 116, 101] :=
+    congrArg Val.bytes (by decide +kernel)
+  rw [exec_succ]
+  unfold entOf at hck
+  cases ac <;> by_cases hpc : pc = 0 <;> by_cases hf : fpc = 0 <;> by_cases hl : level ≥ asa <;>
+    simp [Handle_body, recV, hlvl, hck, hfr, hw, hnm, hpc, hf, hl, State.assign1, Env.set]
+
 end ZapVerif.C18
